@@ -12,6 +12,7 @@ import (
 	"github.com/gorilla/websocket"
 	"verif.local/engine/explore"
 	"verif.local/ref/netsim"
+	"verif.local/ref/rawdeflate"
 	"verif.local/ref/wsref"
 )
 
@@ -74,8 +75,11 @@ func c08Scenarios(tier string) []*explore.Scenario {
 		}
 		readerIsServer := readerIsServer
 		scs = append(scs, &explore.Scenario{Name: fmt.Sprintf("c08/closecodes/reader=%s", roleName(readerIsServer)), Bound: 1, Body: func(x *explore.Ctx) { c08Close(x, readerIsServer, true) }})
-		scs = append(scs, &explore.Scenario{Name: fmt.Sprintf("c08/default-replies/reader=%s", roleName(readerIsServer)), Bound: bound + 1, Body: func(x *explore.Ctx) { c08Close(x, readerIsServer, false) }})
-		scs = append(scs, &explore.Scenario{Name: fmt.Sprintf("c08/handler-error/reader=%s", roleName(readerIsServer)), Bound: bound, Body: func(x *explore.Ctx) { c08HandlerErr(x, readerIsServer) }})
+		for _, deflate := range []bool{false, true} {
+			deflate := deflate
+			scs = append(scs, &explore.Scenario{Name: fmt.Sprintf("c08/default-replies/reader=%s/deflate=%v", roleName(readerIsServer), deflate), Bound: bound + 1, Body: func(x *explore.Ctx) { c08CloseD(x, readerIsServer, false, deflate) }})
+			scs = append(scs, &explore.Scenario{Name: fmt.Sprintf("c08/handler-error/reader=%s/deflate=%v", roleName(readerIsServer), deflate), Bound: bound, Body: func(x *explore.Ctx) { c08HandlerErrD(x, readerIsServer, deflate) }})
+		}
 	}
 	return scs
 }
@@ -84,6 +88,26 @@ var c08Codes_ = c08Codes()
 
 // c08Close: [pings, optional fragmented message with a ping inside] then a close frame; default handlers.
 func c08Close(x *explore.Ctx, readerIsServer, allCodes bool) {
+	c08CloseD(x, readerIsServer, allCodes, false)
+}
+
+// twoPart returns a data message as two frame payloads; with deflate the message is compressed
+// and the cut sits exactly on a DEFLATE block boundary (after a sync flush), so that the first
+// fragment alone inflates cleanly.
+func twoPart(deflate bool, a, b string) (p1, p2 []byte) {
+	if !deflate {
+		return []byte(a), []byte(b)
+	}
+	var w rawdeflate.BitWriter
+	w.Fixed([]byte(a), false)
+	w.SyncFlush()
+	cut := len(w.Buf)
+	w.Fixed([]byte(b), false)
+	all := w.MessageTail()
+	return all[:cut], all[cut:]
+}
+
+func c08CloseD(x *explore.Ctx, readerIsServer, allCodes, deflate bool) {
 	masked := readerIsServer
 	key := maskKeys[3]
 	k := func(what string) string { return fmt.Sprintf("C08:%s:reader=%s", what, roleName(readerIsServer)) }
@@ -121,12 +145,14 @@ func c08Close(x *explore.Ctx, readerIsServer, allCodes bool) {
 		frames = append(frames, wsref.Frame{Fin: true, Opcode: wsref.OpText, Masked: masked, Key: key, Payload: []byte("hello")})
 		wantMsgs = append(wantMsgs, wsref.Message{Type: 1, Payload: []byte("hello")})
 	case 2: // fragmented with ping inside
-		frames = append(frames, wsref.Frame{Opcode: wsref.OpBinary, Masked: masked, Key: key, Payload: []byte("ab")})
+		p1, p2 := twoPart(deflate, "ab", "cd")
+		frames = append(frames, wsref.Frame{Opcode: wsref.OpBinary, Rsv1: deflate, Masked: masked, Key: key, Payload: p1})
 		ping([]byte("mid"))
-		frames = append(frames, wsref.Frame{Fin: true, Opcode: wsref.OpCont, Masked: masked, Key: key, Payload: []byte("cd")})
+		frames = append(frames, wsref.Frame{Fin: true, Opcode: wsref.OpCont, Masked: masked, Key: key, Payload: p2})
 		wantMsgs = append(wantMsgs, wsref.Message{Type: 2, Payload: []byte("abcd")})
 	case 3: // close arrives inside a fragmented message
-		frames = append(frames, wsref.Frame{Opcode: wsref.OpBinary, Masked: masked, Key: key, Payload: []byte("ab")})
+		p1, _ := twoPart(deflate, "ab", "cd")
+		frames = append(frames, wsref.Frame{Opcode: wsref.OpBinary, Rsv1: deflate, Masked: masked, Key: key, Payload: p1})
 		inFrag = true
 	}
 	body := []byte{}
@@ -143,7 +169,7 @@ func c08Close(x *explore.Ctx, readerIsServer, allCodes bool) {
 	if ch := chunkChoices[x.Choose(4, "chunking")]; ch > 0 {
 		nc.Chunk = netsim.ChunkFixed(ch)
 	}
-	c := websocket.VerifNewConn(nc, readerIsServer, 0, 0, nil, false)
+	c := websocket.VerifNewConn(nc, readerIsServer, 0, 0, nil, deflate)
 	rr := ReadAllMessages(c, x.Choose(2, "readprog"), 3, 6)
 	x.NonTrivial()
 	x.Obs("delivered=%s err=%v out=%s", fmtMsgs(rr.Msgs), rr.Err, short(nc.Out))
@@ -183,7 +209,9 @@ type hErr struct{ s string }
 
 func (e *hErr) Error() string { return e.s }
 
-func c08HandlerErr(x *explore.Ctx, readerIsServer bool) {
+func c08HandlerErr(x *explore.Ctx, readerIsServer bool) { c08HandlerErrD(x, readerIsServer, false) }
+
+func c08HandlerErrD(x *explore.Ctx, readerIsServer, deflate bool) {
 	masked := readerIsServer
 	key := maskKeys[0]
 	k := func(what string) string { return fmt.Sprintf("C08:%s:reader=%s", what, roleName(readerIsServer)) }
@@ -191,14 +219,17 @@ func c08HandlerErr(x *explore.Ctx, readerIsServer bool) {
 	fr := func(op byte, fin bool, p string) wsref.Frame {
 		return wsref.Frame{Fin: fin, Opcode: op, Masked: masked, Key: key, Payload: []byte(p)}
 	}
-	frames := []wsref.Frame{fr(1, true, "A"), fr(9, true, "p1"), fr(10, true, "q1"), fr(2, false, "b1"), fr(9, true, "p2"), fr(0, true, "b2"), fr(10, true, "q2"), fr(1, true, "C"), fr(8, true, string(wsref.CloseBody(1000, "x")))}
+	b1, b2 := twoPart(deflate, "b1", "b2")
+	fb1 := fr(2, false, string(b1))
+	fb1.Rsv1 = deflate
+	frames := []wsref.Frame{fr(1, true, "A"), fr(9, true, "p1"), fr(10, true, "q1"), fb1, fr(9, true, "p2"), fr(0, true, string(b2)), fr(10, true, "q2"), fr(1, true, "C"), fr(8, true, string(wsref.CloseBody(1000, "x")))}
 	ctlIdx := []int{1, 2, 4, 6, 8}
 	failAt := x.Pick(len(ctlIdx), "failing-control-frame")
 	nc := netsim.NewConn(wsref.EncodeAll(frames))
 	if ch := chunkChoices[x.Choose(4, "chunking")]; ch > 0 {
 		nc.Chunk = netsim.ChunkFixed(ch)
 	}
-	c := websocket.VerifNewConn(nc, readerIsServer, 0, 0, nil, false)
+	c := websocket.VerifNewConn(nc, readerIsServer, 0, 0, nil, deflate)
 	E := &hErr{"handler says no"}
 	seen := 0
 	var calls []string
